@@ -66,6 +66,10 @@ FINDINGS = [
       "KB08: a struct default overriding an enum-typed member passes the RESOLVED enum type to the pointer helper, doFormatType has no case for an enum and prints `unknown` (placeholder in a successful run; `undefined: unknown`)",
       r"lang=go class=(undefined:unknown:in-types|placeholder:unknown) trig=[^ ]*default\.struct\.enumField",
       "c02-known lab/KB08; Lean witness W.kb08"),
+    F("go/pointer-helper-instantiated-with-resolved-type",
+      "a struct default overriding a nullable member whose type is a reference to a named scalar: maybeValueAsPointer is given the RESOLVED type, so the literal is `(func(input string) *string {…})(\"v\")` while the field is `*Node` (found by the thorough tier, anticipated from rawtypes.go:defaultsForStruct)",
+      r"lang=go class=cannot-use:\*(string|bool|u?int\d*|float\d*)-as-\*T:in-types trig=[^ ]*default\.ref\.struct",
+      "(defs \"Panel\" (\"Panel\" (struct (field \"fooBar\" (ref \"Leaf\") true false (o (\"tags\" (s \"v3a\")))))) (\"Leaf\" (struct (field \"tags\" (ref \"Node\") false false -))) (\"Node\" (string - - false))) cue go=010100"),
     F("go/exponent-literal-for-integer-default",
       "KB13 (OpenAPI): an integer default beyond 2^53 arrives as float64 and is printed by %#v in exponent form, not representable in int64",
       r"lang=go class=cannot-use:untyped-float-constant:in-types trig=[^ ]*default\.int\.huge",
@@ -146,7 +150,25 @@ FINDINGS += [
     IR("php/placeholders-for-alias-objects", "PHP prints `unhandled type def kind` for objects that are scalar / collection aliases (API reference) and `/* unhandled scalar type */`, `/* unhandled type */` in converters", "php", r"placeholder:(unhandled_type_def_kind|/\*_unhandled_scalar_type_\*/|/\*_unhandled_type_\*/)"),
 ]
 
+# Catch-all entries for the peripheral surfaces whose defects form a long tail (every new seed shrinks to
+# another independent mechanism). They come LAST: the specific entries above win when they apply. A
+# mutant that only breaks these surfaces is not distinguishable from the tail; the sharp part of the
+# oracle is Go's types_gen.go, Python, JSON Schema / OpenAPI and the placeholder scan on SOURCE schemas,
+# plus the model correspondence and the theorem instances on every stream.
+FINDINGS += [
+    F("go/builder-and-converter-templates-other",
+      "other type errors in template-rendered Go builders / converters (examples shrunk so far: `undefined: tagsDepth1` for a map of arrays of references with converters; options on maps of builders)",
+      r"lang=go class=[^ ]*:in-(builder|converter) ", "see the specific go/builder-* entries; c02-lab seed 12"),
+    F("java/other",
+      "other javac diagnostics on generated Java (examples: a builder for an anonymous struct refers to the IR field name `Kind` instead of the Java member; …). The Java jenny is exercised by no compiler in cog's own tests",
+      r"lang=java class=java:", "see the specific java/* entries; c02-langs seed 13"),
+    F("ir/other-shapes",
+      "other failures on directly constructed IR (class not yet attributed to a mechanism); tallied per class in the evidence",
+      r"[^\t]*format=ir ", "c02-ir, any seed; the replay file carries the IR"),
+]
+
 STATS = collections.Counter()
+SHRUNK = [0]
 HYP = collections.Counter()
 
 
@@ -204,7 +226,7 @@ def main():
         "directly constructed IR: the oracle is applied to the schema-like profile (harness/c02_irsan.go); IR exactly as drawn by harness/irgen.go is used for the model correspondence and its failures are tallied, not enumerated as findings; IRs on which the pipeline does not return or dies with a fatal stack overflow (alias / collection cycles, cross-package recursion in the JSON Schema jenny) are detected in a child process and left to C04",
         "Go, Python and Java toolchains; go/parser + go/printer for the fragment extraction; the shared lab (docs/LAB.md)",
     ]
-    hb, err = build_go("verifharness", "harness", files=FILES, tag="c02")
+    hb, err = build_go("verifharness", "harness", files=FILES, tag="c02" + os.environ.get("VERIF_TAG", ""))
     c.oblige("harness builds against /repo working tree", hb is not None, err)
     c.lean_obligations(THEOREMS)
     if hb is None:
@@ -252,6 +274,9 @@ def main():
         v = r[2]
         if any(re.search(f["match"], r[0] + "\t" + v, re.S) for f in c.known):
             return r
+        SHRUNK[0] += 1
+        if SHRUNK[0] > (3 if quick else 12):
+            return r        # bounded effort: the first few unknown classes are minimised, the rest reported as found
         m = re.search(r"lang=(\S+) class=(\S+) trig=\S* format=(\S+) (go=\S+ union=\S+ builders=\S+ converters=\S+ apiref=\S+ marshal=\S+ skiprt=\S+) src=(\(defs .*?\)) (?:diag|hits)=", v)
         if not m or m.group(3) == "ir":
             return r
@@ -277,11 +302,11 @@ def main():
                    ("c02-ir", dict(n=12, seed=seed, tier="quick", profile="raw"))]
     else:
         streams = [("c02-known", {}),
-                   ("c02-lab", dict(n=130, seed=seed, tier="thorough")),
-                   ("c02-lab", dict(n=40, seed=seed + 100, tier="thorough", builders=1)),
-                   ("c02-langs", dict(n=90, seed=seed, tier="thorough")),
-                   ("c02-ir", dict(n=240, seed=seed, tier="thorough")),
-                   ("c02-ir", dict(n=120, seed=seed, tier="thorough", profile="raw"))]
+                   ("c02-lab", dict(n=300, seed=seed, tier="thorough")),
+                   ("c02-lab", dict(n=100, seed=seed + 100, tier="thorough", builders=1)),
+                   ("c02-langs", dict(n=200, seed=seed, tier="thorough")),
+                   ("c02-ir", dict(n=500, seed=seed, tier="thorough")),
+                   ("c02-ir", dict(n=300, seed=seed, tier="thorough", profile="raw"))]
     notes = []
     for name, kw in streams:
         t0 = time.time()
